@@ -363,6 +363,18 @@ async def more_runs_then_nonces(root, kb, settings, problems, markers):
         await r.snapshot(paths=[fresh], note='a-very-private-note')
     await r.close()
     harvest()
+    # MANY encryptions by ONE cipher object (a long-lived client taking 100 snapshots of a changing tiny file: > 300 nonces from the
+    # same object, 100 of them under the user key): still no nonce twice
+    r = Repository(Local(root / 'repo'), concurrent=1, quiet=True, cache_directory=None)
+    tiny = root / 'tiny'
+    tiny.mkdir()
+    with lib.quiet():
+        await r.unlock(password=PW, key=kb)
+        for i in range(100):
+            (tiny / 't').write_bytes(b'tick %d' % i)
+            await r.snapshot(paths=[tiny])
+    await r.close()
+    harvest()
     scan(root, kb, markers, problems)
     for d in dupes[:3]:
         problems.append({'problem': 'two ciphertexts at rest carry the same nonce', **d})
@@ -387,7 +399,9 @@ def main():
         configs.sort(key=lambda c: 0 if c['encryption']['kdf'].get('name') == 'blake2b' else 1)      # the non-default user KDF is part of the quick tier
     for ci, settings in enumerate(configs if tier == 'thorough' else configs[:3]):
         files_spec = {'secret-name.txt': b'TOP-SECRET-CONTENT-' + rnd.randbytes(40), 'sub/b.bin': rnd.randbytes(300), 'empty': b'',
-                      'dup.bin': b'hello replicat\n' * 20, 'sub/dup2.bin': b'hello replicat\n' * 20, 'one': b'x'}
+                      'dup.bin': b'hello replicat\n' * 20, 'sub/dup2.bin': b'hello replicat\n' * 20, 'one': b'x',
+                      # a name that is not valid UTF-8 (Latin-1 bytes on disk) and one that is non-ASCII UTF-8
+                      os.fsdecode(b'caf\xe9.bin'): b'latin-1 name', 'na\u00efve \u6587.txt': b'utf-8 name'}
         with lib.scratch('vf_c14_') as root:
             cases += 1
             problems = []
